@@ -4,8 +4,10 @@ import core, gen, objs, fstools
 from adapters import c01, c02
 
 DEFAULT_ENCODINGS = ["utf-8", "cp1252", "cp932", "cp949"]
-REPERTOIRE = {"utf-8": ["猫鍋", "é", "한글", "😀", "—", "a"], "cp1252": ["café", "Ünï", "£5", "a"], "cp932": ["猫鍋", "ｶﾀｶﾅ", "ねこ", "a"],
-              "cp949": ["한글", "가나다", "a"]}
+# also text that Unicode normalisation would alter (a decomposed accent, the angstrom and ohm signs, compatibility ideographs of
+# the two East Asian code pages): what is saved is the edited simfile's own text, character for character
+REPERTOIRE = {"utf-8": ["猫鍋", "é", "한글", "😀", "—", "a", "e\u0301", "\u212b", "\uf900"], "cp1252": ["café", "Ünï", "£5", "a"],
+              "cp932": ["猫鍋", "ｶﾀｶﾅ", "ねこ", "a", "\uf929", "\u212b", "\uf9dc"], "cp949": ["한글", "가나다", "a", "\u212b", "\uf900", "\u2126"]}
 UNDECODABLE = b"#TITLE:\x81 \x81;\n"
 # serialized lengths (in characters) at which block-wise writers and buffers change behaviour
 MARKS = [4096, 8192, 16384, 32768, 65536, 131072, 196608]
